@@ -133,7 +133,7 @@ Proof.
       [|rewrite E; auto] end.
     match goal with |- has_node (set_h_prebranch _ ?G1) t = false => change (has_node G1 t = false) end.
     destruct (alist_get s (g_nodes g)) as [n|]; [|assumption].
-    dif; [rewrite has_node_set_typed|]; assumption.
+    dif; [rewrite (update_pending_keys _ t), has_node_set_typed|]; assumption.
 Qed.
 
 (* ================================================================== D2. compile-time checks *)
